@@ -9,12 +9,13 @@ from framework import LEAN, pmap, write_if_changed
 
 ID = 'C19'
 LEAN_MODULES = ['Pfst.Props.C19']
-LEAN_DEPS = ['Pfst.Coerce', 'Pfst.CoerceLemmas', 'Pfst.Gen.Coerce']
+LEAN_DEPS = ['Pfst.Coerce', 'Pfst.CoerceArgs', 'Pfst.CoerceLemmas', 'Pfst.Gen.Coerce']
 THEOREMS = [
     'Pfst.C19.toPattern_leaves', 'Pfst.C19.toExpr_leaves', 'Pfst.C19.roundtrip', 'Pfst.C19.norm_leaves',
     'Pfst.C19.same_kind_id', 'Pfst.C19.refuses_or_kind', 'Pfst.C19.seq_elements', 'Pfst.C19.seq_elements_pattern',
     'Pfst.C19.coerce_leaves', 'Pfst.C19.routes_agree_partial', 'Pfst.C19.routes_agree_false',
     'Pfst.C19.matrix_disabled_never_coerces', 'Pfst.C19.matrix_same_stable', 'Pfst.C19.matrix_refuses_or_kind',
+    'Pfst.C19.args_type_params_leaves', 'Pfst.C19.args_attrlikes_leaves',
 ]
 RULE = ('(i) extraction: the coercion matrix = every source kind (one minimal witness) x every parse mode x {formatted FST, pure '
         'AST} x coerce in {False, True}, outcome obtained by running code_as; (ii) correspondence: generated expression and '
@@ -23,13 +24,19 @@ RULE = ('(i) extraction: the coercion matrix = every source kind (one minimal wi
         '_coerce_to_expr_ast directly and through as_() / FST(node, mode) / fromast / code_as on both routes, result translated '
         'to the model\'s JSON and compared with the Lean model; (iii) sweep: every (source kind, target mode) pair x operand '
         'shapes (0/1/2/3 elements, nested, starred, parenthesised, multi-line, comments) x both routes, property evaluated on '
-        'the result; puts that coerce vs puts of the explicitly converted node. distinct = distinct (tree, route, target) or '
+        'the result; for every (container kind, target) cell in which some operand is coerced (thorough: every target) '
+        'element-class shapes of the container (every positional class alone, every ordered pair, all together, the name `_` in '
+        'every position: arguments posonly/plain/default/vararg/kwonly/kwonly-default/kwarg, _type_params, _arglikes, Call, '
+        '_aliases, _withitems, _decorator_list, _Assign_targets, _comprehension_ifs, _pattern_attrlikes, MatchClass, '
+        'MatchSequence, MatchMapping, List, Tuple, Set, Dict); puts that coerce vs puts of the explicitly converted node over '
+        '18 slots. distinct = distinct (tree, route, target) or '
         '(kind, shape, target, route); non-trivial = a coercion actually happened (kind changed) or was refused for content')
 TRUSTED = [
     'modelled: _coerce_to_pattern_ast and its Constant/Attribute/Starred/Name/Dict/Call/BinOp/UnaryOp/seq functions, '
     '_coerce_to_expr_ast and its Match* functions, List_or_Set / Tuple first steps, two_step, the kind guard of _code_as / '
     '_code_as_expr, the re-wrapping of _coerce_to_List/_coerce_to_Set/code_as_Tuple; is_FST only where it changes structure '
-    '(MatchOr flattening under parentheses, MatchSequence delimiters)',
+    '(MatchOr flattening under parentheses, MatchSequence delimiters); the `arguments` branches of _coerce_to__type_params and '
+    '_coerce_to__pattern_attrlikes (Pfst/CoerceArgs.lean, Python < 3.13)',
     'not modelled (reached by the sweep with the oracle only): source editing of the formatted route, the wrappers '
     '(Module/Expr/withitem/arg/alias/type params/arguments/_arglikes/... as sources or targets), Slice / Tuple-of-Slice and '
     'lone Starred restrictions of the expr modes, the empty Set normalisation (documented: `{}` / `{*()}`), ctx',
@@ -342,6 +349,7 @@ def _eval_pair(arg):
     res['kind0'] = kind0
     tree0 = M.pure(f0.a)
     leaves0 = M.leaves(tree0)
+    leaves0_ast = M.leaves(M.pure(f0.a, False))
     exp = expected_classes(target) if target != 'all' else None
     already = exp is not None and isinstance(f0.a, exp)
     res['already'] = already
@@ -392,7 +400,9 @@ def _eval_pair(arg):
             if exp is not None and not isinstance(rb.a, exp):
                 res['fails'].append((route, 'kind', f'unchanged result {kind0} is not an instance of the requested {target}'))
         else:
-            _check_result(res, route, rb, target, leaves0, exp)
+            # a pure AST has no source order: its leaves are taken in field order (position-less copy), which is the order
+            # its unparse prints; the formatted operand's leaves are in source order
+            _check_result(res, route, rb, target, leaves0 if route == 'fst' else leaves0_ast, exp)
         # already the requested kind -> unchanged
         if off == 'same' or already:
             if _dump(rb.a) != dump0:
@@ -447,6 +457,46 @@ def _route_diff_class(fa, pa):
     return 'fmt!=pure'
 
 
+_XSHAPES = None
+
+
+def xshapes():
+    global _XSHAPES
+    if _XSHAPES is None:
+        _XSHAPES = M.container_shapes()
+    return _XSHAPES
+
+
+def operand(kind, label):
+    """(parse mode, source) of the operand named by a signature: `s<i>` = SOURCES shape, `x<i>` = element-class shape"""
+    tbl = SOURCES if str(label).startswith('s') or isinstance(label, int) else xshapes()
+    pmode, shapes = tbl[kind]
+    return pmode, shapes[int(str(label).lstrip('sx'))]
+
+
+def extra_pairs(full, rng, coercing):
+    """element-class shapes of the container kinds (every positional class alone, every ordered pair, all, names incl. `_`)
+    for every (kind, target) cell in which some operand of the kind is coerced; thorough: for every target"""
+    targets = target_modes()
+    jobs = []
+    for kind, (pmode, shapes) in xshapes().items():
+        for t in targets:
+            if t in NOT_SWEPT or (not full and (kind, t) not in coercing):
+                continue
+            for si, src in enumerate(shapes):
+                jobs.append((kind, f'x{si}', pmode, src, t))
+    return jobs
+
+
+def coercing_cells(results):
+    out = set()
+    for r in results:
+        for off, on in r.get('out', {}).values():
+            if on.startswith('coerces'):
+                out.add((r['kind'], r['target']))
+    return out
+
+
 def pairs(ctx, full, rng):
     targets = target_modes()
     jobs = []
@@ -455,12 +505,12 @@ def pairs(ctx, full, rng):
             for t in targets:
                 if t in NOT_SWEPT or (not full and si >= 2 and t not in PRINCIPAL and rng.random() > 0.12):
                     continue
-                jobs.append((kind, si, pmode, src, t))
+                jobs.append((kind, f's{si}', pmode, src, t))
     return jobs
 
 
 def _sig(r, route, cls):
-    return f'C19|{r["kind"]}->{r["target"]}|s{r["si"]}/{route}|{cls}'
+    return f'C19|{r["kind"]}->{r["target"]}|{r["si"]}/{route}|{cls}'
 
 
 def _report(ctx, results):
@@ -502,7 +552,10 @@ PUT_SLOTS = [
     ('Import.names', 'import x, y', 'stmt', ('slice', 0, 1, 'names'), '_Import_names'),
     ('With.items', 'with x, y: pass', 'stmt', ('slice', 0, 1, 'items'), '_withitems'),
     ('MatchSequence.patterns', '[x, y]', 'pattern', ('slice', 0, 1, 'patterns'), 'pattern'),
-    ('MatchClass.patterns', 'C(x, y)', 'pattern', ('slice', 0, 1, '_patterns'), '_pattern_attrlikes'),
+    ('MatchClass._attrs', 'C(x, y)', 'pattern', ('slice', 0, 1, '_attrs'), '_pattern_attrlikes'),
+    ('FunctionDef.type_params', 'def f[X, Y](): pass', 'stmt', ('slice', 0, 1, 'type_params'), '_type_params'),
+    ('Dict._all', '{1: x, 2: y}', 'expr', ('slice', 0, 1, '_all'), 'Dict'),
+    ('MatchMapping._all', '{1: x, 2: y}', 'pattern', ('slice', 0, 1, '_all'), 'MatchMapping'),
     ('FunctionDef.args', 'def f(x): pass', 'stmt', ('put', 'args'), 'arguments'),
     ('comprehension.ifs', 'for x in y if z', 'comprehension', ('slice', 0, 1, 'ifs'), '_comprehension_ifs'),
     ('TypeAlias.type_params', 'type t[X, Y] = z', 'stmt', ('slice', 0, 1, 'type_params'), '_type_params'),
@@ -520,7 +573,7 @@ def _do_put(cont, how, code):
 def _eval_put(arg):
     name, csrc, cmode, how, target, kind, si, pmode, src, route = arg
     from fst import FST
-    res = {'slot': name, 'kind': kind, 'si': si, 'src': src, 'target': target, 'route': route}
+    res = {'slot': name, 'kind': kind, 'si': si, 'src': src, 'pmode': pmode, 'target': target, 'route': route}
     try:
         op = FST(src, pmode)
     except Exception:
@@ -571,7 +624,13 @@ def put_jobs(full, rng):
                 if not full and si >= 2 and rng.random() > 0.25:
                     continue
                 for route in ('fst', 'ast'):
-                    jobs.append((name, csrc, cmode, how, target, kind, si, pmode, src, route))
+                    jobs.append((name, csrc, cmode, how, target, kind, f's{si}', pmode, src, route))
+        for kind, (pmode, shapes) in xshapes().items():
+            for si, src in enumerate(shapes):
+                if not full and rng.random() > 0.3:
+                    continue
+                for route in ('fst', 'ast'):
+                    jobs.append((name, csrc, cmode, how, target, kind, f'x{si}', pmode, src, route))
     return jobs
 
 
@@ -584,11 +643,11 @@ def _report_puts(ctx, results):
         ctx.count(('put', r['slot'], r['kind'], r['si'], r['route']), r.get('implicit') == 'ok')
         ctx.tally('put_coerce', f'{r.get("implicit")}/{r.get("explicit")}')
         if 'fail' in r:
-            ctx.fail(f'C19|put:{r["slot"]}<-{r["kind"]}|s{r["si"]}/{r["route"]}|put!=explicit', r['fail'],
-                     {'put_slot': r['slot'], 'kind': r['kind'], 'si': r['si'], 'route': r['route']})
+            ctx.fail(f'C19|put:{r["slot"]}<-{r["kind"]}|{r["si"]}/{r["route"]}|put!=explicit', r['fail'],
+                     {'put_slot': r['slot'], 'kind': r['kind'], 'si': r['si'], 'route': r['route'], 'src': r['src'], 'pmode': r['pmode']})
         if 'fail_parse' in r:
-            ctx.fail(f'C19|put:{r["slot"]}<-{r["kind"]}|s{r["si"]}/{r["route"]}|put-no-parse', r['fail_parse'],
-                     {'put_slot': r['slot'], 'kind': r['kind'], 'si': r['si'], 'route': r['route']})
+            ctx.fail(f'C19|put:{r["slot"]}<-{r["kind"]}|{r["si"]}/{r["route"]}|put-no-parse', r['fail_parse'],
+                     {'put_slot': r['slot'], 'kind': r['kind'], 'si': r['si'], 'route': r['route'], 'src': r['src'], 'pmode': r['pmode']})
     return n
 
 
@@ -597,6 +656,10 @@ def sweep(ctx):
     jobs = pairs(ctx, not ctx.quick, rng)
     res = pmap(_eval_pair, jobs)
     ctx.notes['sweep_pairs'] = _report(ctx, res)
+    cells = coercing_cells(res)
+    xres = pmap(_eval_pair, extra_pairs(not ctx.quick, rng, cells))
+    ctx.notes['sweep_element_class_pairs'] = _report(ctx, xres)
+    ctx.notes['coercing_cells_of_container_kinds'] = len([c for c in cells if c[0] in xshapes()])
     pj = put_jobs(not ctx.quick, rng)
     ctx.notes['sweep_puts'] = _report_puts(ctx, pmap(_eval_put, pj))
     ctx.exhaustive = not ctx.quick
@@ -610,6 +673,7 @@ def search(ctx):
     rng = random.Random(ctx.rng.random())
     res = pmap(_eval_pair, pairs(ctx, True, rng))
     ctx.notes['search_pairs'] = _report(ctx, res)
+    ctx.notes['search_element_class_pairs'] = _report(ctx, pmap(_eval_pair, extra_pairs(True, rng, set())))
     ctx.notes['search_puts'] = _report_puts(ctx, pmap(_eval_put, put_jobs(True, rng)))
     # wider operands: generated sources through the two principal targets
     g = M.SrcGen(rng)
@@ -632,15 +696,21 @@ def replay(ctx, data):
         return
     if 'put_slot' in w:
         slot = next(s for s in PUT_SLOTS if s[0] == w['put_slot'])
-        pmode, shapes = SOURCES[w['kind']]
-        r = _eval_put(slot + (w['kind'], w['si'], pmode, shapes[w['si']], w['route']))
+        if 'src' in w:
+            pmode, src = w['pmode'], w['src']
+        else:
+            pmode, src = operand(w['kind'], w['si'])
+        r = _eval_put(slot + (w['kind'], w['si'], pmode, src, w['route']))
         for k in ('fail', 'fail_parse'):
             if k in r:
                 ctx.fail('replay', r[k], w)
         return
     r = _eval_pair((w['kind'], w['si'], w['pmode'], w['src'], w['target']))
+    want = w.get('class')
     for route, cls, what in r.get('fails', []):
-        ctx.fail('replay', f'({route}) {cls}: {what}', w)
+        if want and want != cls:
+            continue            # the witness names one failure class; another failure on the same input is another matter
+        ctx.fail(_sig(r, route, cls), f'({route}) {cls}: {what}', w)
 
 
 # ---------------------------------------------------------------------------------------------------------------------
@@ -648,7 +718,7 @@ def replay(ctx, data):
 
 def _matrix_cell(arg):
     kind, pmode, src, target = arg
-    r = _eval_pair((kind, 0, pmode, src, target))
+    r = _eval_pair((kind, 's0', pmode, src, target))
     return kind, target, r.get('out'), r.get('kind0')
 
 
@@ -927,6 +997,73 @@ def des_node(j):
     return des_pattern(j['p']) if 'p' in j else des_expr(j['e'])
 
 
+def _args_case(arg):
+    """`arguments` operands through FST(node, '_type_params' / '_pattern_attrlikes'), both routes"""
+    src, target = arg
+    from fst import FST
+    out = []
+    try:
+        ref = ast.parse('def f(\n' + src + '\n): pass').body[0].args
+    except SyntaxError:
+        return out
+    for route in ('fst', 'ast'):
+        fmt = route == 'fst'
+        try:
+            f = FST(src, 'arguments')
+        except Exception:
+            return out
+        if _dump(f.a) != _dump(ref):
+            return out
+        fn = 'C19.argsToTypeParams' if target == '_type_params' else 'C19.argsToAttrlikes'
+        case = {'f': fn, 'a': M.ser_arguments(f.a, fmt), 'fmt': fmt}
+        try:
+            r = FST(f, target) if fmt else FST(M.pure(f.a), target)
+            if target == '_type_params':
+                impl = M.ser_type_params(r.a.type_params)
+            else:
+                impl = {'patterns': [M.ser_pattern(x) for x in r.a.patterns],
+                        'kws': [['pkw', k, M.ser_pattern(x)] for k, x in zip(r.a.kwd_attrs, r.a.kwd_patterns, strict=True)]}
+        except Exception as e:
+            impl = _exc(e)
+        out.append((case, impl, (src, route, target)))
+    return out
+
+
+def _args_sources(rng, n):
+    g = M.SrcGen(rng, bad=0.05, layout=False)
+    out = list(M.container_shapes()['arguments'][1])
+    for _ in range(n):
+        parts = []
+        npos = rng.choice([0, 1, 2, 3])
+        ndef = rng.randint(0, npos)
+        for i in range(npos):
+            nm = rng.choice(['a', 'b', 'c', '_', 'p', 'q']) + (str(i) if rng.random() < 0.7 else '')
+            if nm[0] == '_' and len(nm) > 1:
+                nm = '_'
+            ann = ': ' + rng.choice(['int', 'a.b', 'list[int]']) if rng.random() < 0.15 else ''
+            dfl = '=' + g.expr(rng.choice([0, 1, 2]), True) if i >= npos - ndef else ''
+            parts.append(nm + ann + dfl)
+        if rng.random() < 0.15 and parts:
+            parts.insert(rng.randint(1, len(parts)), '/')
+        star = False
+        if rng.random() < 0.4:
+            parts.append('*' + rng.choice(['v', '_', 'rest']) + (': int' if rng.random() < 0.1 else ''))
+            star = True
+        for i in range(rng.choice([0, 0, 1, 2])):
+            if not star:
+                parts.append('*')
+                star = True
+            parts.append(f'k{i}' + ('=' + g.expr(0, True) if rng.random() < 0.3 else ''))
+        if rng.random() < 0.3:
+            parts.append('**' + rng.choice(['kw', '_']) + (': int' if rng.random() < 0.1 else ''))
+        seen = set()
+        names = [p.split('=')[0].split(':')[0].strip('*') for p in parts]
+        if len([x for x in names if x and x != '/']) != len(set(x for x in names if x and x != '/')):
+            continue
+        out.append(', '.join(parts))
+    return out
+
+
 def correspondence(ctx):
     q = ctx.quick
     rng = random.Random(ctx.rng.random())
@@ -955,6 +1092,10 @@ def correspondence(ctx):
             jobs.append(('pattern', s, t, rng.randrange(12)))
     items = [it for lst in pmap(_api_case, jobs) for it in lst]
     _compare(ctx, 'as_ / FST(node, mode) / fromast / code_as vs Pfst.Coerce.coerce', items, exact=False)
+    # (c) `arguments` re-read as type parameters / class-pattern attributes
+    jobs = [(s, t) for s in _args_sources(rng, 300 if q else 3000) for t in ('_type_params', '_pattern_attrlikes')]
+    items = [it for lst in pmap(_args_case, jobs) for it in lst]
+    _compare(ctx, 'FST(arguments, _type_params / _pattern_attrlikes) vs Pfst.Coerce.argsToTypeParams/argsToAttrlikes', items, exact=False)
 
 
 def _compare(ctx, name, items, exact):
@@ -972,7 +1113,7 @@ def _compare(ctx, name, items, exact):
             model = {'model_err': m['err']}
         else:
             model = m.get('p', m.get('e', m.get('r')))
-        pure_route = not c.get('fmt')
+        pure_route = not c.get('fmt') or c['f'].startswith('C19.args')     # args cases: no annotation is compared
         mm = _strip_lpar(model)
         if pure_route and isinstance(mm, (list, dict)):
             mm = M.strip_annot(mm)
@@ -989,7 +1130,11 @@ def _compare(ctx, name, items, exact):
             if isinstance(mm, dict) and _empty_set(mm):
                 ctx.tally('correspondence_excluded', 'empty Set (documented normalisation)')
                 continue
-            if pure_route and impl is None and isinstance(mm, dict) and not _valid_by_cpython(mm):
+            if isinstance(mm, dict) and 'patterns' in mm:
+                mm_node = {'p': ['cls', ['name', 'C'], mm['patterns'], mm['kws']]}
+            else:
+                mm_node = mm
+            if not c.get('fmt') and impl is None and isinstance(mm_node, dict) and not _valid_by_cpython(mm_node):
                 ctx.tally('correspondence_excluded', 'pure route: built tree is not valid Python, entry point refuses on re-parse')
                 continue
         if not ok:
